@@ -260,3 +260,10 @@ def h2(ctx: Ctx) -> None:
     from .c19 import r2 as rounding_rule
 
     rounding_rule(ctx)
+
+
+@rule("C01.H3", "mechanism shared with C02: `resting side` and `earlier accepted` are read off the book's ranking, which is the exact lexicographic order", "T6 decision table (same rule as C02.R1)", floor=1)
+def h3(ctx: Ctx) -> None:
+    from .c02 import r1 as comparator_rule
+
+    comparator_rule(ctx)
